@@ -82,6 +82,7 @@ def hermite_He_seq(ns, x):
     # in use here
     ns = list(ns)
     min_i = 0
+    x = np.asarray(x)  # scalars are documented to work; they have no shape or dtype
     out = np.empty((len(ns), *x.shape), dtype=x.dtype)
     if ns[min_i] == 0:
         out[min_i] = 1
@@ -165,6 +166,7 @@ def hermite_He_der_seq(ns, x):
     # in use here
     ns = list(ns)
     min_i = 0
+    x = np.asarray(x)  # scalars are documented to work; they have no shape or dtype
     out = np.empty((len(ns), *x.shape), dtype=x.dtype)
     if ns[min_i] == 0:
         out[min_i] = 0
@@ -281,6 +283,7 @@ def hermite_H_seq(ns, x):
     # in use here
     ns = list(ns)
     min_i = 0
+    x = np.asarray(x)  # scalars are documented to work; they have no shape or dtype
     out = np.empty((len(ns), *x.shape), dtype=x.dtype)
     if ns[min_i] == 0:
         out[min_i] = 1
@@ -365,6 +368,7 @@ def hermite_H_der_seq(ns, x):
     # in use here
     ns = list(ns)
     min_i = 0
+    x = np.asarray(x)  # scalars are documented to work; they have no shape or dtype
     out = np.empty((len(ns), *x.shape), dtype=x.dtype)
     if ns[min_i] == 0:
         out[min_i] = 0
